@@ -477,7 +477,9 @@ def runNumeric (lines : List String) : IO Unit := do
       let v := parseC re im
       a := a.bump "chi_values"
       a ← truncCheck a "C19" s!"chi {i} {j} {k} {l} {n1} {n2} {n3}" s!"chi_{i}{j}{k}{l}({n1},{n2},{n3})" [v]
-             (24.0 * s.truncEps * Float.ofNat (s.dim * s.dim * s.dim * s.dim) * s.beta * s.beta * s.beta)
+             -- Properties/C19 `two_particle_bound_matsubara`: (4 + 2π) ε β³ / π³ · absWeightChi
+             ((4.0 + 2.0 * pi) * s.truncEps * s.beta * s.beta * s.beta / (pi * pi * pi)
+                * (if a.truncated then absWeightChi s #[ci, cj, adjoint ck] (adjoint cl) else 0.0))
       a := remember a s!"chi {i} {j} {k} {l} {n1} {n2} {n3}" [v]
       -- exchange symmetries of the implementation's own values (C13, first sentence)
       if !a.truncated then
